@@ -15,6 +15,8 @@
 #include <sys/time.h>
 #include <sys/resource.h>
 #include <time.h>
+#include <errno.h>
+#include <sys/select.h>
 
 static inline std::string jesc(const std::string &s) {
   std::string o;
@@ -36,7 +38,7 @@ static inline double now_s() { struct timespec ts; clock_gettime(CLOCK_MONOTONIC
 struct Report {
   std::map<std::string, long> counters;
   std::vector<std::string> violations, known, samples;
-  size_t max_viol = 200, max_samples = 12;
+  size_t max_viol = getenv("VERIF_MAXVIOL") ? atol(getenv("VERIF_MAXVIOL")) : 200, max_samples = 12;
   void add(const std::string &k, long v = 1) { counters[k] += v; }
   void viol(const std::string &json) { counters["violations"]++; if (violations.size() < max_viol) violations.push_back(json); }
   void knownf(const std::string &json) { counters["known_matched"]++; if (known.size() < max_viol) known.push_back(json); }
